@@ -25,10 +25,10 @@ func init() {
 // scriptedWriter: every Write pops one scripted result (then succeeds forever).
 type scriptedWriter struct {
 	failures int
-	script  []string
-	entries []string // ok:<n bytes> / part<k>
-	good    bytes.Buffer
-	all     bytes.Buffer
+	script   []string
+	entries  []string // ok:<n bytes> / part<k>
+	good     bytes.Buffer
+	all      bytes.Buffer
 }
 
 var errScripted = errors.New("scripted write failure")
@@ -514,8 +514,8 @@ func hasTimestamp(kids []*Node) bool {
 
 // ---- pools ---------------------------------------------------------------------------------
 
-func i64n(key string, v int64) *Node { return &Node{Key: key, Tag: 0x12, Raw: u64(uint64(v))} }
-func dbl(key string, v uint64) *Node { return &Node{Key: key, Tag: 0x01, Raw: u64(v)} }
+func i64n(key string, v int64) *Node      { return &Node{Key: key, Tag: 0x12, Raw: u64(uint64(v))} }
+func dbl(key string, v uint64) *Node      { return &Node{Key: key, Tag: 0x01, Raw: u64(v)} }
 func sub(key string, kids ...*Node) *Node { return &Node{Key: key, Tag: 0x03, Kids: kids} }
 
 // schemaPool: documents of several schemas; k makes the values of one schema differ between samples
@@ -615,6 +615,28 @@ func streamHist(o *Out, rng *rand.Rand, thorough bool, _ []string) {
 			}
 		}
 		nrec(nil)
+		// schema changes around Reset and Flush: after either, a sample of ANOTHER schema is handled as by a fresh collector
+		zl := 3
+		if thorough {
+			zl = 4
+		}
+		var zrec func(prefix []string)
+		zrec = func(prefix []string) {
+			if len(prefix) >= 2 {
+				for _, ctor := range []string{"dynamic", "streamingDynamic", "writer", "sample0-dynamic"} {
+					for _, n := range []int{1, 2} {
+						run(o, fmt.Sprintf("hist %s %d - | %s | %s", ctor, n, strings.Join(npool, " "), strings.Join(prefix, " ")))
+					}
+				}
+			}
+			if len(prefix) == zl {
+				return
+			}
+			for _, a := range []string{"a0", "a1", "z", "f", "r"} {
+				zrec(append(append([]string{}, prefix...), a))
+			}
+		}
+		zrec(nil)
 	}
 	// random long histories
 	nr := 300
@@ -776,7 +798,7 @@ func streamFault(o *Out, rng *rand.Rand, thorough bool, _ []string) {
 		"a0 a1 f a0 f a1 a0 f f",
 		"a0 a1 a2 a2 a0 a1 a2 f a0 f",
 		"a0 f f a1 f a1 a1 a1 f",
-		"a0 a1 a3 a4 a3 f a4 f",       // schema change to a renamed schema of the same shape: the change flush may fail
+		"a0 a1 a3 a4 a3 f a4 f", // schema change to a renamed schema of the same shape: the change flush may fail
 		"a0 a3 a3 a4 a0 a1 f f",
 	}
 	for _, sc := range scripts {
